@@ -101,3 +101,31 @@ def fileSave (w : World) (cfg : Cfg) (f : FileS) (body : List Code) : Result × 
   let r := renderFileRaw cfg f body
   let e := fileSaveFrom w f.noFormat (misuse f.np (.group fileInfo body)) r.1
   (e.1, e.2, r.2)
+
+/-! ### the remaining entry points: `Render` (fresh File) and `GoString` (in-memory buffer) -/
+
+/-- everything written to the caller's writer along a trace (what an in-memory buffer holds) -/
+def Effect.written (es : List Effect) : Str :=
+  (es.filterMap fun e => match e with | .callerWrite b => some b | _ => none).flatten
+
+/-- an environment whose writer is an in-memory buffer (never fails) -/
+def World.buffered (gofmt : Str → Option Str) : World := ⟨gofmt, fun _ => true, fun _ => true⟩
+
+/-- `Statement.Render` / `Group.Render`: `RenderWithFile(w, NewFile(""))` -/
+def fragRenderFresh (w : World) (cfg : Cfg) (c : Code) : Result × List Effect × FileS :=
+  fragRender w cfg (Registry.newFile []) c
+
+/-- `GoString`: the content of the buffer after a successful `Render`; any other result is the
+    error the function panics with -/
+def goStringFrom (r : Result × List Effect × FileS) : Result × Str × FileS :=
+  match r.1 with
+  | .ok => (.ok, Effect.written r.2.1, r.2.2)
+  | e => (e, [], r.2.2)
+
+/-- `Statement.GoString` / `Group.GoString` -/
+def fragGoString (gofmt : Str → Option Str) (cfg : Cfg) (c : Code) : Result × Str × FileS :=
+  goStringFrom (fragRenderFresh (World.buffered gofmt) cfg c)
+
+/-- `File.GoString` -/
+def fileGoString (gofmt : Str → Option Str) (cfg : Cfg) (f : FileS) (body : List Code) : Result × Str × FileS :=
+  goStringFrom (fileRender (World.buffered gofmt) cfg f body)
